@@ -184,7 +184,10 @@ pub fn c10(a: &Analysis) -> Vec<Violation> {
                     }
                 }
                 let fin = a.final_file(put.dst, &put.dst_name).map(|b| digest(b));
-                if let Some(x) = fin {
+                // (a receive transaction re-spawned by stragglers after the cancelled one ended may
+                // deliver the file after all: what late PDUs may start is C11's subject; the content
+                // clause above still applies to it)
+                if let Some(x) = fin.filter(|_| t.at_dst.incarnations <= 1) {
                     let first_cancel_ind = t.at_dst.inds.iter().find(|i| match &i.ind {
                         Indication::Finished(f) => f.report.condition == Condition::CancelReceived,
                         Indication::Abandon(f) => f.condition == Condition::CancelReceived,
